@@ -5,7 +5,10 @@ from ..core import parse_sx, sx
 class C06(Prop):
     ID = "C06"
     THEOREMS = ["C06_bw_summary", "C06_bw_min_of_values", "C06_sweep_eq_rle_depth", "C06_bb_accepted_valid",
-                "C06_bb_chrom_summary", "C06_bb_summary", "C06_bb_item_count", "C06_bb_file_summary", "C06_bb_summary_ieee"]
+                "C06_bb_chrom_summary", "C06_bb_summary", "C06_bb_item_count", "C06_bb_file_summary", "C06_bb_summary_ieee",
+                # the reader on the bytes of the written file (C01 / C02 whole-file developments + the f64 field codec)
+                "C06_f64_roundtrip", "C06_bw_file_stored", "C06_bw_file_summary", "C06_bw_file_summary_ieee",
+                "C06_bb_file_summary_read", "C06_bb_file_item_count"]
     RULE = ("bigBed: 1-6 chromosomes, per chromosome a start-sorted BED layout from the grammar disjoint/partly overlapping/nested/"
             "identical/zero-length/very-long-then-short/dense/gaps relative to the first resolution, options compress x items_per_slot"
             "{1,2,3,7,1024} x zoom modes x single/two pass, plus a malformed stream (unsorted, start>end, start>=length, unknown "
